@@ -399,6 +399,13 @@ pub fn run_case(out: &mut Out, prop: &str, case: &PairCase) -> Option<CaseResult
             Outcome::Panic(_) => {
                 obs.push("2".into());
                 if cur != prev { out.monitor_fail(prop, "an aborted operation changed balances or ledgers", replay(k, "atomicity")); }
+                // C15, converse clause: the deposit that funds an empty pool has no ratio to deviate from - with a tolerance given it is within the
+                // limits by definition and must not be refused (an abort refuses it); amounts kept far from every overflow
+                if let POp::Provide { d0, d1, tol: Some(_), .. } = op {
+                    if prev.supply == 0 && *d0 > 0 && *d1 > 0 && *d0 < (1u128 << 100) && *d1 < (1u128 << 100) {
+                        out.monitor_fail("C15", "the first deposit into an empty pool aborted because it carries a slippage tolerance", replay(k, "first deposit with tolerance"));
+                    }
+                }
             }
         }
         prev = cur;
